@@ -5,6 +5,7 @@ returns on GOOD, raises CheckConditionError(sense) (attribute .sense) on CHECK C
 and UnspecifiedError on any other non-GOOD completion.  `TARGET` plays the device:
 TARGET(cdb, dataout, datain) -> (status, sense-bytes-or-None) and may fill datain.
 Every call is recorded in CALLS together with the inode of the file object it was given.
+A data-out command through a handle opened read-only raises PermissionError, as the sg driver does.
 """
 import os
 
@@ -41,6 +42,10 @@ def execute(file, cdb, dataout, datain, *args, **kwargs):
     CALLS.append(rec)
     if rec["closed"]:
         raise ValueError("I/O operation on closed file")
+    if len(dataout) and rec["mode"] is not None and not ("+" in rec["mode"] or "w" in rec["mode"] or "a" in rec["mode"]):
+        # the sg driver lets a read-only opener issue only commands that do not write (sg_allow_access /
+        # blk_verify_command): a data-out command through an "rb" handle fails with EPERM before it reaches the target
+        raise PermissionError(1, "Operation not permitted (read-only handle, data-out command)")
     status, sense = (0, None) if TARGET is None else TARGET(bytes(cdb), dataout, datain)
     rec["status"] = status
     if status == 0:
